@@ -977,6 +977,7 @@ def modularity_louvain_dir(W, gamma=1, hierarchy=False, seed=None):
     Ci and Q may vary from run to run, due to heuristics in the
     algorithm. Consequently, it may be worth to compare multiple runs.
     '''
+    W = np.asarray(W, dtype=float)  # the same network whatever the storage: arithmetic below must not be logical (bool) or wrap (small integers)
     rng = get_rng(seed)
 
     n = len(W)  # number of nodes
@@ -1112,6 +1113,7 @@ def modularity_louvain_und(W, gamma=1, hierarchy=False, seed=None):
     Ci and Q may vary from run to run, due to heuristics in the
     algorithm. Consequently, it may be worth to compare multiple runs.
     '''
+    W = np.asarray(W, dtype=float)  # the same network whatever the storage: arithmetic below must not be logical (bool) or wrap (small integers)
     rng = get_rng(seed)
 
     n = len(W)  # number of nodes
@@ -1252,6 +1254,7 @@ def modularity_louvain_und_sign(W, gamma=1, qtype='sta', seed=None):
     Ci and Q may vary from run to run, due to heuristics in the
     algorithm. Consequently, it may be worth to compare multiple runs.
     '''
+    W = np.asarray(W, dtype=float)  # the same network whatever the storage: arithmetic below must not be logical (bool) or wrap (small integers)
     rng = get_rng(seed)
 
     n = len(W)  # number of nodes
